@@ -19,7 +19,8 @@
               (Histories that create an existing rule set are not judged.) *)
 From HV Require Export Base.Prelude C06.Pat C06.Model C06.Spec C06.Tree.
 
-Record step_obs := { o_res : option err; o_hist : list (option nat); o_fresh_ok : bool; o_fresh : list (option nat) }.
+Record step_obs := { o_res : option err; o_hist : list (option nat); o_fresh_ok : bool; o_fresh : list (option nat);
+                     o_hcap : list nat; o_fcap : list nat }.
 
 Record case := { c_ops : list op; c_probes : list (nat * str); c_obs : list step_obs }.
 
@@ -27,7 +28,13 @@ Definition uid_of (r : option rule) : option nat :=
   match r with Some x => Some (d_uid (r_def x)) | None => None end.
 
 Definition ans_eqb : list (option nat) -> list (option nat) -> bool := list_eqb (option_eqb Nat.eqb).
-Definition res_eqb : option err -> option err -> bool := option_eqb err_eqb.
+
+(** the outcome of an operation as far as the property talks about it: applied,
+    rejected (whatever the error says), or a crash *)
+Definition res_class (r : option err) : nat :=
+  match r with None => 0 | Some EPanic => 2 | Some _ => 1 end.
+
+Definition res_eqb (a b : option err) : bool := Nat.eqb (res_class a) (res_class b).
 
 (** the abstract index has no node paths, hence no slice expression that can go
     out of range: where the tree panics inside Delete it reports a failed delete *)
@@ -77,8 +84,29 @@ Fixpoint has_dup (l : list rule) : bool :=
   | r :: t => mem_rule r t || has_dup t
   end.
 
-(** walk along the history; returns (correspondence with the tree, correspondence
-    with the abstract index, property).
+Definition non_nil {A} (l : list A) : bool := negb (is_nil l).
+
+(** the guards that fire on the prefix walked so far *)
+Definition guards_now (d1 d2 : list nat) (dup : bool) : list Z :=
+  guards [(1%Z, non_nil d1); (2%Z, non_nil d2); (6%Z, dup)].
+
+Definition first_some {A} (a b : option A) : option A := match a with Some _ => a | None => b end.
+
+(** walk along the history.  Returns
+    - correspondence with the tree, with the abstract index;
+    - the guards at the first JUDGED step at which the property predicate fails on
+      the implementation's observation (None: it holds at every judged step);
+    - the same for the predicate evaluated on the tree model's own answers (which
+      tells whether the model predicts a failure on this history).
+
+    A step is judged until the history creates a rule set that exists (the steps
+    before it are judged).
+
+    The property predicate of a step uses the specification and the observation
+    only: the operation was applied iff the specification says it can be; the
+    implementation's own fresh load of what it holds succeeded; history and fresh
+    repository give the same rule and leave the same captures in the request, for
+    every probe.
 
     [bl]: since fix 003095f the repository deletes the very route OBJECT; the models
     compare routes structurally, which is the same unless two equal rule objects
@@ -86,40 +114,57 @@ Fixpoint has_dup (l : list rule) : bool :=
     set is created again); from the step after that happened the models are no
     longer compared with the implementation (the property still is evaluated). *)
 Fixpoint walk (probes : list (nat * str)) (ops : list op) (obs : list step_obs)
-         (tr : trepo) (mr : repo) (Sreal Sspec : sets) (bl : bool) : bool * bool * bool :=
+         (tr : trepo) (mr : repo) (Sreal Sspec ST : sets) (d1 d2 : list nat) (dup ill bl : bool)
+  : bool * bool * option (list Z) * option (list Z) :=
   match ops, obs with
-  | [], [] => (true, true, true)
+  | [], [] => (true, true, None, None)
   | o :: ops', ob :: obs' =>
     let (tr', tres) := t_step fx tr o in
     let (mr', mres) := step fx mr o in
     let Sreal' := real_step Sreal o (is_ok (o_res ob)) in
+    let ST' := real_step ST o (is_ok tres) in
     let Sspec' := spec_step Sspec o in
     let (fr, fok) := t_load t_empty_repo Sreal' in
-    let (fs, fsok) := if sets_eqb Sreal' Sspec' then (fr, fok) else t_load t_empty_repo Sspec' in
+    let (ft, ftok) := if sets_eqb Sreal' ST' then (fr, fok) else t_load t_empty_repo ST' in
+    let hist_t := t_answers (index tr') probes in
     let ct := bl ||
-              (res_eqb tres (o_res ob) && ans_eqb (t_answers (index tr') probes) (o_hist ob) &&
+              (res_eqb tres (o_res ob) && ans_eqb hist_t (o_hist ob) &&
                Bool.eqb fok (o_fresh_ok ob) && ans_eqb (t_answers (index fr) probes) (o_fresh ob)) in
     let cm := bl || (res_eqb_m mres (o_res ob) && ans_eqb (m_answers (index mr') probes) (o_hist ob)) in
+    let ill' := ill || match o with Add s _ => has_set Sspec s | _ => false end in
+    let dup' := dup || dupid_set (op_set o) || (negb (fix_F4 fx) && f4_set (op_set o)) in
+    let d1' := dirty1_step Sspec o d1 in
+    let d2' := dirty2_step Sspec o d2 in
     let pr := Bool.eqb (is_ok (o_res ob)) (spec_ok Sspec o) &&
-              o_fresh_ok ob && ans_eqb (o_hist ob) (o_fresh ob) &&
-              fsok && ans_eqb (o_hist ob) (t_answers (index fs) probes) in
+              o_fresh_ok ob && ans_eqb (o_hist ob) (o_fresh ob) && list_eqb Nat.eqb (o_hcap ob) (o_fcap ob) in
+    let prT := Bool.eqb (is_ok tres) (spec_ok Sspec o) && ftok && ans_eqb hist_t (t_answers (index ft) probes) in
+    let g := guards_now d1' d2' dup' in
+    let here (p : bool) : option (list Z) := if ill' || p then None else Some g in
     let bl' := bl || (fix_F4 fx && has_dup (known tr')) in
-    let '(a, b, c) := walk probes ops' obs' tr' mr' Sreal' Sspec' bl' in
-    (ct && a, cm && b, pr && c)
-  | _, _ => (false, false, false)
+    let '(a, b, f, t) := walk probes ops' obs' tr' mr' Sreal' Sspec' ST' d1' d2' dup' ill' bl' in
+    (ct && a, cm && b, first_some (here pr) f, first_some (here prT) t)
+  | _, _ => (false, false, Some [], Some [])
   end.
 
 Definition check (c : case) : verdict :=
   let ops := c_ops c in
-  let '(ct, cm, pr) := walk (c_probes c) ops (c_obs c) t_empty_repo empty [] [] false in
+  let '(ct, cm, f, t) := walk (c_probes c) ops (c_obs c) t_empty_repo empty [] [] [] [] [] false false false in
   (* where the abstract index is not claimed to behave like the code: node
      compression (C06-F3) and stale key names (C06-F5), unless repaired *)
-  let structural := (negb (fix_F3 fx) && guard_F3 ops) || (negb (fix_F5 fx) && guard_F5 ops) in
-  {| v_corr := ct && (structural || cm);
-     v_prop := negb (wf_history ops) || pr;
-     v_guards := guards [(1%Z, guard_F1 ops); (2%Z, guard_F2 ops); (3%Z, negb (fix_F3 fx) && guard_F3 ops);
-                         (4%Z, negb (fix_F4 fx) && guard_F4 ops); (5%Z, negb (fix_F5 fx) && guard_F5 ops);
-                         (6%Z, guard_dupid ops)] |}.
+  let g3 := negb (fix_F3 fx) && guard_F3 ops in
+  let g5 := negb (fix_F5 fx) && guard_F5 ops in
+  let pinned := guards [(3%Z, g3); (4%Z, negb (fix_F4 fx) && guard_F4 ops); (5%Z, g5)] in
+  {| v_corr := ct && (g3 || g5 || cm);
+     v_prop := match f with None => true | Some _ => false end;
+     (* the guards are reported only where they explain something: at the first
+        failing step, or where the tree model predicts a failure the implementation
+        does not show (a repaired finding); a deviation from the model on a history
+        on which neither fails is an unexplained correspondence break *)
+     v_guards := match f, t with
+                 | Some g, _ => g ++ pinned
+                 | None, Some g => g ++ pinned
+                 | None, None => []
+                 end |}.
 
 End Eval.
 
@@ -133,12 +178,12 @@ Definition D := Delete.
 Definition R := Refused.
 Definition er (n : nat) : option err :=
   match n with
-  | 0 => None | 1 => Some EInvalidPath | 2 => Some EConstraint | 3 => Some EDelete | 6 => Some ELoad | _ => Some EPanic
+  | 0 => None | 1 => Some EInvalidPath | 2 => Some EConstraint | 3 => Some EDelete | 4 => Some EPanic | _ => Some ELoad
   end.
 (* answers: 0 = no rule, n+1 = rule with label n *)
 Definition an (l : list nat) : list (option nat) := map (fun n => match n with 0 => None | S k => Some k end) l.
-Definition so (r : nat) (hist : list nat) (fok : bool) (fresh : list nat) : step_obs :=
-  {| o_res := er r; o_hist := an hist; o_fresh_ok := fok; o_fresh := an fresh |}.
+Definition so (r : nat) (hist : list nat) (fok : bool) (fresh : list nat) (hcap fcap : list nat) : step_obs :=
+  {| o_res := er r; o_hist := an hist; o_fresh_ok := fok; o_fresh := an fresh; o_hcap := hcap; o_fcap := fcap |}.
 Definition pb (m : nat) (p : string) : nat * str := (m, sl p).
 Definition cs (ops : list op) (probes : list (nat * str)) (obs : list step_obs) : case :=
   {| c_ops := ops; c_probes := probes; c_obs := obs |}.
